@@ -19,6 +19,11 @@
 (*   R                deployment spec.replicas (>= 1)                      *)
 (*   pt, pv           partition: "int" count or "pct" percentage           *)
 (*   st, sv / ut, uv  maxSurge / maxUnavailable, "int" or "pct"            *)
+(*   r0               R as of the last sync: R # r0 means the user changed *)
+(*                    the size and no sync has run since (the size is      *)
+(*                    being changed even where the controller's annotation *)
+(*                    bookkeeping cannot see it); not visible to the       *)
+(*                    controller                                           *)
 (*   nx               the new ReplicaSet exists                            *)
 (*   n                new ReplicaSet  [s, a, d, m]                         *)
 (*   olds             sequence of 1-2 old ReplicaSets [s, a, d, m], oldest *)
@@ -126,7 +131,12 @@ SeqOf(S) == SortIdx(S, LAMBDA i, j : i < j)           \* creation order
 (***************************************************************************)
 (* sync.go scale(): the deployment's size was changed                      *)
 (***************************************************************************)
-ScaleVec(x) ==
+\* Code = TRUE reproduces two deviations of the code from the reference:
+\*   * deploymentutil.NewRSReplicasLowerBound: a freshly created new ReplicaSet gets at least one pod
+\*     when maxSurge resolves to 0, whatever the partition allows;
+\*   * scale() returns early when the only active ReplicaSet already has spec.replicas pods and leaves
+\*     its stale desired-replicas annotation in place (the deployment then stays "scaling" for ever).
+ScaleVec(x, Code) ==
   LET v0     == AllRS(x)
       n      == Len(v0)
       no     == NOld(x)
@@ -135,7 +145,7 @@ ScaleVec(x) ==
   IF Cardinality(active) <= 1 THEN
        \* FindActiveOrLatest: the only active ReplicaSet, else the newest one
        LET k == IF active # {} THEN CHOOSE i \in active : TRUE ELSE n
-       IN  IF v0[k].s = x.R THEN v0 ELSE SetSize(v0, k, x.R, x)
+       IN  IF Code /\ v0[k].s = x.R THEN v0 ELSE SetSize(v0, k, x.R, x)
   ELSE IF x.nx /\ x.n.s = x.R /\ x.n.d = x.R /\ x.n.a = x.R THEN
        \* IsSaturated(new): every active old ReplicaSet goes to zero
        [i \in 1..n |-> IF i <= no /\ v0[i].s > 0 THEN SetSize(v0, i, 0, x)[i] ELSE v0[i]]
@@ -167,15 +177,12 @@ NewReplicas(x, newS, total) ==
 \* rolling.go ScaleDownLimitForOld: old pods in excess of what the partition reserves for them
 DownLimit(x, oldPods, newS) == oldPods - (x.R - Max(Limit(x), newS))
 
-\* CreateFloor = TRUE models deploymentutil.NewRSReplicasLowerBound (a freshly created new ReplicaSet
-\* gets at least one pod when maxSurge resolves to 0); the reference (FALSE) creates it with what the
-\* partition and the surge allow.
-RollVec(x, CreateFloor) ==
+RollVec(x, Code) ==
   LET no    == NOld(x)
       n     == no + 1
       oldT  == OldSum(x)
       c0    == NewReplicas(x, 0, oldT)
-      cNew  == IF CreateFloor /\ Surge(x) = 0 THEN Max(c0, Min(1, x.R)) ELSE c0
+      cNew  == IF Code /\ Surge(x) = 0 THEN Max(c0, Min(1, x.R)) ELSE c0
       v0    == IF x.nx THEN AllRS(x)
                ELSE Append(x.olds, [s |-> cNew, a |-> 0, d |-> x.R, m |-> x.R + Surge(x)])
       newS  == v0[n].s
@@ -215,15 +222,16 @@ RollVec(x, CreateFloor) ==
 (***************************************************************************)
 FromVec(x, v, hasNew) ==
   [x EXCEPT !.olds = [i \in 1..NOld(x) |-> Canon(v[i])],
+            !.r0   = x.R,
             !.nx   = hasNew,
             !.n    = IF hasNew THEN Canon(v[NOld(x) + 1]) ELSE Gone]
 
-SyncWith(x, CreateFloor) ==
-  IF Scaling(x) THEN FromVec(x, ScaleVec(x), x.nx)
-  ELSE FromVec(x, RollVec(x, CreateFloor), TRUE)
+SyncWith(x, Code) ==
+  IF Scaling(x) THEN FromVec(x, ScaleVec(x, Code), x.nx)
+  ELSE FromVec(x, RollVec(x, Code), TRUE)
 
 RefSync(x)  == SyncWith(x, FALSE)      \* the reference definition
-CodeSync(x) == SyncWith(x, TRUE)       \* the reference plus the new-ReplicaSet floor of the code
+CodeSync(x) == SyncWith(x, TRUE)       \* the reference plus the two deviations of the code
 
 (***************************************************************************)
 (* environment                                                             *)
@@ -233,30 +241,32 @@ AllAvailable(x) ==
             !.n    = [x.n EXCEPT !.a = x.n.s]]
 
 \* fair schedule of D5: Sync, every pod becomes available, repeated to a fixed point (budgeted)
-RECURSIVE FairRun(_, _)
-FairRun(x, budget) ==
-  LET y == AllAvailable(RefSync(x))
+RECURSIVE FairRun(_, _, _)
+FairRun(x, budget, Code) ==
+  LET y == AllAvailable(SyncWith(x, Code))
   IN  IF y = x THEN [fix |-> TRUE, x |-> x]
       ELSE IF budget <= 1 THEN [fix |-> FALSE, x |-> y]
-      ELSE FairRun(y, budget - 1)
+      ELSE FairRun(y, budget - 1, Code)
 FairBudget(x) == 6 * (x.R + 4) + 10
 
 (***************************************************************************)
 (* the property C17, clause by clause, on one Sync step pre -> post        *)
 (***************************************************************************)
-\* Each clause is claimed for Sync steps of a deployment whose size is not being changed (~Scaling):
+\* the size is being changed: the controller's bookkeeping says so, or the user has just changed it
+Resizing(x) == Scaling(x) \/ x.R # x.r0
+\* Each clause is claimed for Sync steps of a deployment whose size is not being changed (~Resizing):
 \* antecedent A_k (when the clause speaks) and consequent C_k (what it demands of the post-state).
 \* D1  never grows the new ReplicaSet beyond the number of pods the current partition allows
-A1(pre, post) == ~Scaling(pre)
+A1(pre, post) == ~Resizing(pre)
 C1(pre, post) == NewS(post) <= Max(NewS(pre), Limit(pre))
 \* D2  never shrinks the old ReplicaSets below what the partition reserves for them
-A2(pre, post) == ~Scaling(pre) /\ OldSum(post) < OldSum(pre)
+A2(pre, post) == ~Resizing(pre) /\ OldSum(post) < OldSum(pre)
 C2(pre, post) == OldSum(post) >= pre.R - Max(Limit(pre), NewS(post))
 \* D3  never scales the new ReplicaSet up so that the total exceeds replicas + maxSurge
-A3(pre, post) == ~Scaling(pre) /\ NewS(post) > NewS(pre)
+A3(pre, post) == ~Resizing(pre) /\ NewS(post) > NewS(pre)
 C3(pre, post) == NewS(post) + OldSum(post) <= pre.R + Surge(pre)
 \* D4  never scales down available old pods so that fewer than replicas - maxUnavailable stay available
-A4(pre, post) == ~Scaling(pre) /\ OldAvail(post) < OldAvail(pre)
+A4(pre, post) == ~Resizing(pre) /\ OldAvail(post) < OldAvail(pre)
 C4(pre, post) == AvailSum(post) >= pre.R - MaxUnav(pre)
 D1(pre, post) == A1(pre, post) => C1(pre, post)
 D2(pre, post) == A2(pre, post) => C2(pre, post)
